@@ -16,7 +16,15 @@
      the server must be the ones the user wrote, in that order.
 (C2) transcripts (model dump + answers to a request history through `UDSServerTransport.handle_request`) of the same
      seed / arguments - given as Python values and as command-line text - from separate interpreter processes with
-     different PYTHONHASHSEED, import orders and clock bases must be byte-identical except security-access seed bytes.
+     different PYTHONHASHSEED, import orders, clock bases and states of the process-global `random` module (left as the fresh
+     interpreter seeds it / seeded differently / advanced by different amounts; the checking process itself is two more
+     environments) must be byte-identical except security-access seed bytes.  Besides the random histories the transcripts
+     are model-directed: for every handler of RandomUDSServer.respond_after_default x every sub-function the model can
+     offer, seeds are searched per parameter set (default / dense / mid) until some model offers it, and a second in-process
+     instance of that ECU is asked for a request that reaches the positive (random-carrying) branch in that session
+     (identifier and payload search guided by the negative response codes); the coverage table (positive answers per
+     parameter set x handler x sub-function, recomputed from the live code on every run) is part of the evidence and a
+     target without a positive answer is reported as a broken tie.
 """
 import json
 import os
@@ -51,7 +59,12 @@ ASSUMPTIONS = [
     "random.Random (Mersenne Twister) seeded with a str is a function of that str; floats compared with libm pow on both sides",
     "a theorem cannot see another process: that randomize has no input besides (arguments, draw stream, choice stream) is a "
     "theorem about the model; that the code consults nothing else (request handlers, argument parsing, module state) is "
-    "carried by the draw replay and the cross-process transcript comparison over the listed environments",
+    "carried by the draw replay and the cross-process transcript comparison over the listed environments "
+    "(PYTHONHASHSEED, import order, clock base, state of the global random module, order of construction)",
+    "model-directed transcripts: the requests are found by asking a second in-process instance of the same virtual ECU; only the "
+    "requests go into the history, the answers compared are those of the separately started ECUs. Every handler x sub-function "
+    "is reached in some model of the searched seeds (ECUReset 0x01..0x7F, SecurityAccess 0x01..0x7E, RoutineControl 1..3, "
+    "ReadDTCInformation 2, the identifier services with a positive identifier / payload), not in every model",
 ]
 
 HARNESS = Path(__file__).resolve().parent.parent
@@ -1427,7 +1440,11 @@ MANIFEST = {
                    "str(seed) alone, a scripted RNG enumerating every Boolean draw stream on small universes, servers built directly "
                    "and through the real command line; (C2) byte-identical transcripts (model + answers to request histories via "
                    "UDSServerTransport.handle_request) from separate interpreter processes with different PYTHONHASHSEED, import "
-                   "orders and clock bases, arguments given as values and as command-line text, security-access seeds masked."),
+                   "orders, clock bases and states of the global random module (fresh / seeded differently / advanced by different "
+                   "amounts, plus two states inside the checking process), arguments given as values and as command-line text, "
+                   "security-access seeds masked; the histories are random and model-directed (seed search per parameter set until "
+                   "every handler x sub-function of the virtual ECU is offered by some model, then a request with a positive answer "
+                   "found by probing the live code; coverage table in the evidence)."),
     "level_note": ("Trusted: Lean kernel (axioms propext, Quot.sound, Classical.choice), the generated tables, the harness, CPython's "
                    "random.Random, libm pow; the set model is a transcription validated against the running interpreter, not derived "
                    "from the C source. Partial: a theorem cannot see another process - that the code consults nothing but seed and "
@@ -1436,6 +1453,7 @@ MANIFEST = {
                    "0x7F; set elements below 2^61-1."),
     "technique": ("Lean 4 proof (full-period lemma, probe-loop invariants, simulation of the set-order-free model by the oracle model, "
                   "invariants over folds, well-founded level loop) + differential test of the set model + recorded-draw replay "
-                  "without recorded order + cross-process transcript comparison incl. the command-line path"),
+                  "without recorded order + cross-process transcript comparison incl. the command-line path, model-directed "
+                  "request histories and differing global-random states"),
     "design_ref": "DESIGN.md section 7, C16",
 }
